@@ -36,15 +36,17 @@ constexpr long kMExt[8] = {1, 2, 3, 2, 0, 3, 4, 2};
 enum MOp { O_CTOR_EXT, O_CTOR_EXT_VAL, O_CTOR_ILIST, O_CTOR_ITERS, O_CTOR_VIEW, O_CTOR_CONVERT, O_COPY_CTOR, O_MOVE_CTOR, O_COPY_ASSIGN, O_ASSIGN_VIEW,
            O_ASSIGN_CONVERT, O_ASSIGN_ILIST, O_MOVE_ASSIGN, O_SWAP, O_DECAY, O_WRITE, O_CLEAR, O_SELF_ASSIGN,
            O_REEXTENT, O_REEXTENT_VAL, O_REEXTENT_SAME, O_RESHAPE, O_ASSIGN_ITERS, O_ASSIGN_EMPTY, O_ASSIGN_EXT_VAL, O_REEXTENT_RVALUE,
-           O_COPY_CTOR_ALLOC, O_MOVE_CTOR_ALLOC, O_DESTROY, M_NOPS };
+           O_COPY_CTOR_ALLOC, O_MOVE_CTOR_ALLOC, O_DESTROY, O_THROUGH_VIEW, M_NOPS };
+constexpr unsigned kOpsByModulo = O_THROUGH_VIEW;  // operation bytes outside [kEscape, kEscapeEnd) decode as byte % kOpsByModulo (as they always did); the bytes inside select the operation added later
+constexpr unsigned kEscape = 232, kEscapeEnd = 250;  // [kEscape, kEscapeEnd): 18 of 256 byte values
 inline char const* const mop_name[] = {"ctor(ext)", "ctor(ext,val)", "ctor{ilist}", "ctor(first,last)", "ctor(view)", "ctor(convertible)", "copy-ctor", "move-ctor", "copy-assign", "assign-view",
            "assign-convertible", "assign{ilist}", "move-assign", "swap", "decay", "write", "clear", "self-assign",
            "reextent", "reextent(val)", "reextent(same)", "reshape", "assign(first,last)", "assign{}", "assign(ext,val)", "move.reextent",
-           "copy-ctor(alloc)", "move-ctor(alloc)", "destroy"};
+           "copy-ctor(alloc)", "move-ctor(alloc)", "destroy", "assign-through-view"};
 
 constexpr unsigned long long bit(int o) { return 1ULL << o; }
 constexpr unsigned long long kValueOps = bit(O_CTOR_EXT) | bit(O_CTOR_EXT_VAL) | bit(O_CTOR_ILIST) | bit(O_CTOR_ITERS) | bit(O_CTOR_VIEW) | bit(O_CTOR_CONVERT) | bit(O_COPY_CTOR) | bit(O_MOVE_CTOR) |
-                                         bit(O_COPY_ASSIGN) | bit(O_ASSIGN_VIEW) | bit(O_ASSIGN_CONVERT) | bit(O_ASSIGN_ILIST) | bit(O_MOVE_ASSIGN) | bit(O_SWAP) | bit(O_DECAY) | bit(O_WRITE) | bit(O_CLEAR) | bit(O_SELF_ASSIGN);
+                                         bit(O_COPY_ASSIGN) | bit(O_ASSIGN_VIEW) | bit(O_ASSIGN_CONVERT) | bit(O_ASSIGN_ILIST) | bit(O_MOVE_ASSIGN) | bit(O_SWAP) | bit(O_DECAY) | bit(O_WRITE) | bit(O_CLEAR) | bit(O_SELF_ASSIGN) | bit(O_THROUGH_VIEW);
 constexpr unsigned long long kResizeOps = bit(O_REEXTENT) | bit(O_REEXTENT_VAL) | bit(O_REEXTENT_SAME) | bit(O_RESHAPE) | bit(O_ASSIGN_ITERS) | bit(O_ASSIGN_EMPTY) | bit(O_ASSIGN_EXT_VAL) | bit(O_REEXTENT_RVALUE) |
                                           bit(O_CTOR_EXT) | bit(O_CTOR_EXT_VAL) | bit(O_CTOR_ILIST) | bit(O_ASSIGN_ILIST) | bit(O_WRITE) | bit(O_CLEAR) | bit(O_COPY_CTOR) | bit(O_COPY_ASSIGN) | bit(O_CTOR_ITERS);
 constexpr unsigned long long kAllocOps = bit(O_COPY_CTOR_ALLOC) | bit(O_MOVE_CTOR_ALLOC);
@@ -366,14 +368,14 @@ struct Machine {
 		switch(op) {
 			case O_COPY_ASSIGN: return model[a].ext == model[b].ext && !(Cfg::stateful && (Cfg::flags & 1) != 0 && (Cfg::flags & 8) == 0 && alloc_id[a] != alloc_id[b]);  // (a propagating unequal allocator must reallocate)
 			case O_MOVE_ASSIGN: return !Cfg::stateful || (Cfg::flags & (2 | 8)) != 0 || alloc_id[a] == alloc_id[b];  // (unequal non-propagating allocators must move element-wise)
-			case O_MOVE_CTOR: case O_SWAP: case O_WRITE: case O_SELF_ASSIGN: case O_CLEAR: case O_REEXTENT_SAME: case O_RESHAPE: return true;
+			case O_MOVE_CTOR: case O_SWAP: case O_WRITE: case O_SELF_ASSIGN: case O_CLEAR: case O_REEXTENT_SAME: case O_RESHAPE: case O_THROUGH_VIEW: return true;
 			default: return false;
 		}
 	}
 
 	// one operation; may throw (injected faults)
 	void do_op(Input const& in, int r) {
-		unsigned op = in.op(r, 0) % M_NOPS;
+		unsigned op = (in.op(r, 0) >= kEscape && in.op(r, 0) < kEscapeEnd) ? static_cast<unsigned>(O_THROUGH_VIEW) : in.op(r, 0) % kOpsByModulo;
 		if((enabled & bit(static_cast<int>(op))) == 0) { ctx.count("ops_not_enabled"); return; }
 		int a = in.op(r, 1) % NS, b = in.op(r, 2) % NS;
 		unsigned x = in.op(r, 3);
@@ -586,6 +588,27 @@ struct Machine {
 				model[a].ext = e;
 				break;
 			}
+			case O_THROUGH_VIEW: {  // assignment *through* views of two arrays of equal extents: deep, element by element, never any storage
+				ctx.desc << " <- " << b;
+				if(model[a].n() == 0 || model[a].ext != model[b].ext) { ctx.count("ops_skipped"); ctx.desc << " (extents differ: skipped)"; break; }
+				auto const* before = raw_ptr(slot[a]->data_elements());
+				unsigned const form = x % 4U;
+				bool whole = true; long row_a = 0, row_b = 0, rown = model[a].n();
+				if(form == 3 && D >= 2) { whole = false; rown = model[a].n()/model[a].ext[0]; row_a = static_cast<long>(in.op(r, 4)) % model[a].ext[0]; row_b = static_cast<long>(in.op(r, 5)) % model[b].ext[0]; }
+				static char const* const fn[] = {" A() = B()", " A.elements() = B.elements()", " A() = as_const(B)()", " A[i] = B[j]"};
+				ctx.desc << fn[(form == 3 && D < 2) ? 0 : form];
+				unknown[a] = true;
+				if(form == 1) { slot[a]->elements() = std::as_const(*slot[b]).elements(); }
+				else if(form == 2) { (*slot[a])() = std::as_const(*slot[b])(); }
+				else if(!whole) { if constexpr(D >= 2) { (*slot[a])[row_a] = (*slot[b])[row_b]; } }
+				else { (*slot[a])() = (*slot[b])(); }
+				unknown[a] = false;
+				VP_CHECK(raw_ptr(slot[a]->data_elements()) == before, "value/view_assign_rebound", "assignment through a view changed the storage of the array");
+				if(whole) { model[a].v = model[b].v; }
+				else { for(long j = 0; j < rown; ++j) { model[a].v[static_cast<std::size_t>(row_a*rown + j)] = model[b].v[static_cast<std::size_t>(row_b*rown + j)]; } }
+				nt = true;
+				break;
+			}
 			case O_ASSIGN_EXT_VAL: {
 				auto e = delta_ext(model[a].ext, x, in.op(r, 4)); print_ext(e); int v0 = in.op(r, 5) % 50;
 #if VP_HAS_ASSIGN_EXT_VAL
@@ -608,7 +631,7 @@ struct Machine {
 	}
 	void run_(Input const& in) {
 		for(int r = 0; r < in.nops(); ++r) {
-			unsigned op = in.op(r, 0) % M_NOPS;
+			unsigned op = (in.op(r, 0) >= kEscape && in.op(r, 0) < kEscapeEnd) ? static_cast<unsigned>(O_THROUGH_VIEW) : in.op(r, 0) % kOpsByModulo;
 			try {
 				obs().context = static_cast<int>(op);
 				do_op(in, r);
